@@ -8,7 +8,7 @@ and generated code) against (a) the assembly probe harness/c05_probe.S, whose ca
 image is compared with the spec's placement, and (b) a gcc-compiled C callee generated from the same
 prototype that records what it receives.  Shared helpers (prototype -> MIR text, values, images) are
 also used by c06.py."""
-import json, os, random, struct, subprocess, sys, time
+import json, os, random, struct, subprocess, time
 import vlib
 from vlib import Check, run_tlc, tlc_ok, MachineryError
 
@@ -434,8 +434,11 @@ def c_type(a):
     if t in m:
         return m[t], None
     if t == "blk0":
+        if n < 3:
+            return None, None              # no C type of this size is passed in MEMORY
         if n <= 16:
-            return None, None              # no C type is passed in MEMORY at this size
+            # psABI 3.2.3: an aggregate that "contains unaligned fields" has class MEMORY (gcc implements this)
+            return "B0_%d" % n, "typedef struct __attribute__ ((packed)) { char c; short x;%s } B0_%d;" % (" char r[%d];" % (n - 3) if n > 3 else "", n)
         name = "B0_%d" % n
         body = "long a[%d];" % (n // 8) if n % 8 == 0 else ("int a[%d];" % (n // 4) if n % 4 == 0 else "char a[%d];" % n)
     elif t == "blk1":
